@@ -217,7 +217,7 @@ def check(recipe, mode):
         if not zero_diag and not (recipe['sub'] == 'blockdiag' and _has_zero_diag(recipe['expr'], defs)):
             X.compare_with_den(ii, den, p, 'II-value', max_basis=8)
         # pseudo-inverse stays finite on huge inputs
-        if zero_diag and recipe.get('huge'):
+        if recipe['sub'] == 'diag0' and recipe.get('huge'):  # (not for diag_tiny: 1e10 * 1e30 overflows float32 legitimately)
             big = np.where(np.arange(n) % 2 == 0, 1e30, -1e30)
             out, _ = must_not_raise('I-mv-huge', ops.apply_flat, inv, den.out_S, big)
             if not np.all(np.isfinite(out)):
